@@ -647,38 +647,47 @@ def unextract(trees):
         if n_sites > 1 and sum(1 for _ in ast.walk(fn)) > 350:
             continue  # helpers used more than once are inlined only when they are small
         inlined = 0
-        while True:
-            # find a statement whose whole value is the call
-            target = None
-            for owner in ast.walk(tree):
-                for field in ("body", "orelse", "finalbody"):
-                    block = getattr(owner, field, None)
-                    if not isinstance(block, list):
-                        continue
-                    for i, st in enumerate(block):
-                        val = st.value if isinstance(st, (ast.Assign, ast.Expr, ast.Return)) else None
-                        if isinstance(val, ast.Call):
-                            nm = val.func.id if isinstance(val.func, ast.Name) else val.func.attr if isinstance(val.func, ast.Attribute) else None
-                            if nm == name and (isinstance(val.func, ast.Name) != is_method or (is_method and isinstance(val.func, ast.Attribute)
-                                                                                               and isinstance(val.func.value, ast.Name))):
-                                if is_method and not (isinstance(val.func, ast.Attribute) and val.func.value.id in ("self", "cls", qual.split(".")[0])):
-                                    continue
-                                if any(x is st for x in ast.walk(fn)):
-                                    continue  # the call must sit outside the helper itself
-                                target = (block, i, st, val)
-            if target is None:
-                break
-            block, i, st, call = target
-            tag_no += 1
-            caller_fn = next((f_ for _, f_ in _functions(tree) if any(x is st for x in ast.walk(f_)) and not any(
-                x is st for g_ in ast.walk(f_) if g_ is not f_ and isinstance(g_, (ast.FunctionDef, ast.AsyncFunctionDef)) for x in ast.walk(g_))), None)
-            new = _inline_at(st, call, copy.deepcopy(fn) if n_sites > 1 else fn, f"in{tag_no}", is_method, static, caller_fn)
-            if new is None:
-                break
-            block[i:i + 1] = new
-            inlined += 1
-            if caller_fn is not None and not any(caller_fn is f_ for f_ in touched):
-                touched.append(caller_fn)
+        # call sites in other modules (a method put on a shared base class, a function put into a utility module) are spliced too when the body
+        # names nothing of its home module: only its parameters, its own locals, self and builtins
+        import builtins as _b
+        bound = {a.arg for a in fn.args.posonlyargs + fn.args.args + fn.args.kwonlyargs} | {n.id for n in ast.walk(fn) if isinstance(n, ast.Name) and isinstance(n.ctx, ast.Store)}
+        free = {n.id for n in ast.walk(fn) if isinstance(n, ast.Name) and isinstance(n.ctx, ast.Load)} - bound - set(dir(_b))
+        site_trees = [tree] + ([t_ for r_, t_ in trees.items() if t_ is not tree] if not free else [])
+        for site_tree in site_trees:
+            while True:
+                # find a statement whose whole value is the call
+                target = None
+                for owner in ast.walk(site_tree):
+                    for field in ("body", "orelse", "finalbody"):
+                        block = getattr(owner, field, None)
+                        if not isinstance(block, list):
+                            continue
+                        for i, st in enumerate(block):
+                            val = st.value if isinstance(st, (ast.Assign, ast.Expr, ast.Return)) else None
+                            if isinstance(val, ast.Call):
+                                nm = val.func.id if isinstance(val.func, ast.Name) else val.func.attr if isinstance(val.func, ast.Attribute) else None
+                                if nm == name and (isinstance(val.func, ast.Name) != is_method or (is_method and isinstance(val.func, ast.Attribute)
+                                                                                                   and isinstance(val.func.value, ast.Name))
+                                                   or (not is_method and site_tree is not tree and isinstance(val.func, ast.Attribute)
+                                                       and isinstance(val.func.value, ast.Name))):
+                                    if is_method and not (isinstance(val.func, ast.Attribute) and val.func.value.id in ("self", "cls", qual.split(".")[0])):
+                                        continue
+                                    if any(x is st for x in ast.walk(fn)):
+                                        continue  # the call must sit outside the helper itself
+                                    target = (block, i, st, val)
+                if target is None:
+                    break
+                block, i, st, call = target
+                tag_no += 1
+                caller_fn = next((f_ for _, f_ in _functions(site_tree) if any(x is st for x in ast.walk(f_)) and not any(
+                    x is st for g_ in ast.walk(f_) if g_ is not f_ and isinstance(g_, (ast.FunctionDef, ast.AsyncFunctionDef)) for x in ast.walk(g_))), None)
+                new = _inline_at(st, call, copy.deepcopy(fn) if n_sites > 1 else fn, f"in{tag_no}", is_method, static, caller_fn)
+                if new is None:
+                    break
+                block[i:i + 1] = new
+                inlined += 1
+                if caller_fn is not None and not any(caller_fn is f_ for f_ in touched):
+                    touched.append(caller_fn)
         if inlined:
             done.append((rel, qual))
         if inlined == n_sites:
